@@ -13,7 +13,7 @@ from sa.report import Ctx
 from .common import generic_sweeps
 from sa.stutter import stutter_paths
 
-from .sat_common import SatRoles, check_add_sites, check_assumption_assertion, check_backtrack, check_heap_flags
+from .sat_common import SatRoles, check_add_sites, check_assumption_assertion, check_backtrack, check_heap_flags, check_input_copy
 
 EXPLANATION = (
     "Decides structural necessary conditions of 'INFEASIBLE only without a model / always returns within budgets' on "
@@ -42,6 +42,7 @@ def run(ctx: Ctx):
     check_assumption_assertion(ctx, roles, "C02-O7")
     ctx.assume("conflict-only cycles terminate because consecutive conflicts strictly lower the decision level (not verified)")
     check_heap_flags(ctx, "C02-O8")
+    check_input_copy(ctx, "C02-O9")
     generic_sweeps(ctx, skip_stutter_modules=("solvor/sat.py",))
 
 
@@ -358,6 +359,48 @@ def _v_declevel_not_reset(tree):
     M.replace_stmt(f, lambda s: M.src_is(s, "dec_level = bt_level"), [])
 
 
+def _v_head_reset_to_trail_end(tree):
+    g = M.find_func(tree, "solve_sat.unassign_to")
+    M.replace_expr(g, lambda e: M.src_is(e, "min(prop_head, len(trail))"), M.expr("len(trail)"))
+    ret = [s for s in g.body if isinstance(s, ast.If) and any(isinstance(x, ast.Return) for x in s.body)]
+    if not ret:
+        raise M.Skip("early return not found")
+    i = g.body.index(ret[0])
+    rest = g.body[i + 1 : -1]
+    g.body = g.body[:i] + [ast.If(test=M.expr("len(trail_lim) > level"), body=rest, orelse=[])] + [g.body[-1]]
+
+
+def _t_unassign_single_exit(tree):
+    """equally valid: single-exit form that keeps the min"""
+    g = M.find_func(tree, "solve_sat.unassign_to")
+    ret = [s for s in g.body if isinstance(s, ast.If) and any(isinstance(x, ast.Return) for x in s.body)]
+    if not ret:
+        raise M.Skip("early return not found")
+    i = g.body.index(ret[0])
+    g.body = g.body[:i] + [ast.If(test=M.expr("len(trail_lim) > level"), body=g.body[i + 1 :], orelse=[])]
+
+
+NORMALISE = """normalised = []
+for c in clauses:
+    lits = list(dict.fromkeys(c))
+    if len({lit_var(lit) for lit in %s}) < len(%s):
+        continue
+    normalised.append(lits)
+clauses = normalised
+"""
+
+
+def _v_tautology_test_on_raw_clause(tree):
+    g = M.find_func(tree, "solve_sat")
+    M.replace_stmt(g, lambda s: M.src_is(s, "clauses = [list(c) for c in clauses]"), M.stmts(NORMALISE % ("c", "c")))
+
+
+def _t_tautology_test_on_kept_clause(tree):
+    """equally valid: duplicates removed, tautologies (tested on the de-duplicated literals) dropped"""
+    g = M.find_func(tree, "solve_sat")
+    M.replace_stmt(g, lambda s: M.src_is(s, "clauses = [list(c) for c in clauses]"), M.stmts(NORMALISE % ("lits", "lits")))
+
+
 def _v_flag_kept_on_skip(tree):
     g = M.find_func(tree, "solve_sat.pick_var")
     M.replace_stmt(g, lambda s: M.src_is(s, "in_heap[var] = False"), [])
@@ -406,6 +449,10 @@ VARIANTS = [
     M.Variant("dec_level not updated after backjump", SAT, _v_declevel_not_reset, "C02-O3"),
     M.Variant("backtrack reads the boundary after shrinking (original defect)", SAT, _v_backtrack_reads_after_shrink, "C02-O6"),
     M.Variant("pick_var clears the in-heap flag only for the variable it returns (seed C01-D)", SAT, _v_flag_kept_on_skip, "C02-O8"),
+    M.Variant("unassign_to sets the propagation head to the trail end on every call (seed C01-E)", SAT, _v_head_reset_to_trail_end, "C02-O8"),
+    M.Variant("twin: unassign_to in single-exit form", SAT, _t_unassign_single_exit, None),
+    M.Variant("input normalisation drops clauses with a repeated literal as tautologies (seed C02-C)", SAT, _v_tautology_test_on_raw_clause, "C02-O9"),
+    M.Variant("twin: input normalisation that tests the de-duplicated literals", SAT, _t_tautology_test_on_kept_clause, None),
     M.Variant("twin: reformat only", SAT, _t_reformat, None),
     M.Variant("twin: rename locals of the backtrack routine", SAT, _t_rename, None),
     M.Variant("twin: comparisons written the other way round", SAT, _t_budget_flipped, None),
